@@ -176,9 +176,13 @@ module N :
 
 module Z :
  sig
+  val opp : z -> z
+
   val eqb : z -> z -> bool
 
   val to_N : z -> n
+
+  val of_N : n -> z
  end
 
 type 'line exp = { opt : bool; mul0 : bool; mt : ('line -> bool) }
@@ -1210,6 +1214,43 @@ val name_mem : n list -> n list list -> bool
 val excluded : n list -> bool
 
 val persisted_names : n list list -> n list list -> n list list
+
+val pREFIX : n list
+
+val cOLONS : n list
+
+val starts : n list -> n list -> bool
+
+val find_sub : n list -> n list -> nat option
+
+val strip_nl_rev : n list -> n list
+
+val trim_nl : n list -> n list
+
+val is_digit0 : n -> bool
+
+val value : n list -> n
+
+val all_digits : n list -> bool
+
+val parse_usize : n list -> n option
+
+val parse_i32 : n list -> z option
+
+type dsearch =
+| NotFound
+| Found of n list * n * z
+| Bad
+
+val parse_divider : n list -> dsearch
+
+val iterate : n list list -> n list -> n -> (n list * z) list option
+
+val split_outputs : n list -> (n list * z) list option
+
+val divider_line : n list -> n -> z -> n list
+
+val ideal : n list -> n -> (n list * z) list -> n list
 
 val make_exp : bool -> bool -> (nat -> bool) -> nat exp
 
